@@ -34,6 +34,7 @@ func main() {
 	commands["c15"] = runC15
 	commands["c20"] = runC20
 	commands["c09"] = runC09
+	commands["c19sel"] = runC19Sel
 	commands["c14hash"] = func(a []string) { initCollisions(); runC14Hash(a) }
 	registerMore()
 	if len(os.Args) < 2 {
